@@ -728,3 +728,36 @@ def next_sources(F, body, op):
             if b is not None and callee_decl(b.blocks[x].term).endswith("Iterator::next"):
                 out.add((p, x))
     return out
+
+
+def named_const(body, op):
+    """Path of the named constant an operand refers to (directly or through a promoted), e.g. `...::SERVER`."""
+    tr = tracer(body)
+    for o in tr.operand(op):
+        if o.kind != "const":
+            continue
+        if o.data[0] == "uneval":
+            return o.data[1]
+        if o.data[0] == "promoted" and o.data[1] < len(body.promoted):
+            pb = body.promoted[o.data[1]]
+            for _, _, s in pb.statements():
+                if s["s"] == "assign" and s["rvalue"]["rv"] == "use" and s["rvalue"]["op"].get("unevaluated"):
+                    return s["rvalue"]["op"]["unevaluated"]
+    return None
+
+
+def promoted_variant(body, op, adt_suffix=None):
+    """Variant name of an enum constant an operand refers to (directly built or through a promoted)."""
+    tr = tracer(body)
+    for o in tr.operand(op):
+        if o.kind == "const" and o.data[0] == "promoted" and o.data[1] < len(body.promoted):
+            pb = body.promoted[o.data[1]]
+            for _, _, s in pb.statements():
+                if s["s"] == "assign" and s["rvalue"]["rv"] == "agg" and s["rvalue"]["kind"] == "adt":
+                    if adt_suffix is None or s["rvalue"]["adt"].endswith(adt_suffix):
+                        return s["rvalue"]["variant"]
+        if o.kind == "stmt":
+            rv = body.blocks[o.data[0]].stmts[o.data[1]]["rvalue"]
+            if rv["rv"] == "agg" and rv["kind"] == "adt" and (adt_suffix is None or rv["adt"].endswith(adt_suffix)):
+                return rv["variant"]
+    return None
